@@ -102,7 +102,73 @@ func replayTestSource(pkgName string, harnesses []string) string {
 	}
 }
 `)
+	if pkgName == "decimal" {
+		sb.WriteString(`
+// TestVerifReplayRace: confinement counterexamples (a store into an operand, a package-level
+// variable or a pooled buffer) are not observable in a sequential run. They are confirmed
+// natively by running the harness from several goroutines that SHARE the operands (each with its
+// own receiver) under the race detector.
+func TestVerifReplayRace(t *testing.T) {
+	f := os.Getenv("VERIF_REPLAY_FILES")
+	b, err := os.ReadFile(f)
+	if err != nil {
+		t.Fatal(err)
+	}
+	var r struct {
+		Harness string
+		Cfg     map[string]int64
+		Values  map[string]string
+	}
+	if err := json.Unmarshal(b, &r); err != nil {
+		t.Fatal(err)
+	}
+	vReplayCfg, vReplayVal = r.Cfg, r.Values
+	h := vHarnessTab[r.Harness]
+	if h == nil {
+		t.Fatalf("unknown harness %s", r.Harness)
+	}
+	run := func() {
+		defer func() { recover() }()
+		h()
+	}
+	vShareOn = true
+	setThresholds() // the only package-level state the harnesses assign; operands are built under a lock
+	done := make(chan bool)
+	for g := 0; g < 4; g++ {
+		go func() {
+			for i := 0; i < 25; i++ {
+				run()
+			}
+			done <- true
+		}()
+	}
+	for g := 0; g < 4; g++ {
+		<-done
+	}
+	fmt.Printf("RACE-REPLAY-DONE file=%s\n", f)
+}
+`)
+	}
 	return sb.String()
+}
+
+// confinementObligation reports whether id is decided on the executor's ownership tags only
+// (not observable by a sequential native run).
+func confinementObligation(id string) bool {
+	return strings.HasPrefix(id, "C18.confine.") || strings.HasPrefix(id, "C18.pool.")
+}
+
+// raceReplay runs one counterexample in race mode; it returns "FAIL race" if the race detector
+// reports a data race, "PASS" if the run completes without one.
+func raceReplay(l *sym.Loaded, file, work string) string {
+	out := nativeReplayCmd(l, "decimal", "verif", []string{file}, work, "^TestVerifReplayRace$", true)
+	switch {
+	case strings.Contains(out, "WARNING: DATA RACE"):
+		return "FAIL race (go test -race reports a data race between goroutines sharing the operands)"
+	case strings.Contains(out, "RACE-REPLAY-DONE"):
+		return "PASS"
+	}
+	return "ERROR no result: " + lastLines(out, 6)
 }
 
 // runReplays writes the replay files and runs them natively under the default
@@ -145,6 +211,40 @@ func runReplays(prop string, l *sym.Loaded, vs []Violation, work string) {
 					v.Confirmed[build.name] = "FAIL (native panic: " + r.pan + ")"
 				default:
 					v.Confirmed[build.name] = "PASS"
+				}
+			}
+		}
+		// a counterexample that did not reproduce in the batch is run again in a process of its own: the
+		// library's package-level state (e.g. a constant modified by an earlier replay) may have hidden it
+		for _, i := range idxs {
+			v := &vs[i]
+			hit := false
+			for _, r := range v.Confirmed {
+				if strings.HasPrefix(r, "FAIL") {
+					hit = true
+				}
+			}
+			if hit || len(idxs) == 1 {
+				continue
+			}
+			for _, build := range []struct{ name, tags string }{{"asm", "verif"}, {"purego", PureTags}} {
+				res := parseReplayOutput(nativeReplay(l, pkg, build.tags, []string{v.Path}, work))
+				if r, ok := res[v.Path]; ok && r.assume == "" {
+					switch {
+					case v.Obligation == "nopanic.uncaught" && r.pan != "":
+						v.Confirmed[build.name] = "FAIL panic: " + r.pan
+					case containsID(r.failures, v.Obligation):
+						v.Confirmed[build.name] = "FAIL " + v.Obligation + " (own process)"
+					case r.pan != "":
+						v.Confirmed[build.name] = "FAIL (native panic: " + r.pan + ")"
+					}
+				}
+			}
+		}
+		if pkg == "decimal" {
+			for _, i := range idxs {
+				if v := &vs[i]; confinementObligation(v.Obligation) {
+					v.Confirmed["race"] = raceReplay(l, v.Path, work)
 				}
 			}
 		}
@@ -193,6 +293,10 @@ func parseReplayOutput(out string) map[string]replayRes {
 }
 
 func nativeReplay(l *sym.Loaded, pkg, tags string, files []string, work string) string {
+	return nativeReplayCmd(l, pkg, tags, files, work, "^TestVerifReplay$", false)
+}
+
+func nativeReplayCmd(l *sym.Loaded, pkg, tags string, files []string, work, run string, race bool) string {
 	repo := RepoDir()
 	pkgName, sub := "decimal", ""
 	if pkg == "context" {
@@ -214,7 +318,11 @@ func nativeReplay(l *sym.Loaded, pkg, tags string, files []string, work string) 
 	}
 	env := []string{"GOFLAGS=-mod=mod", "GOPROXY=off", "GOSUMDB=off", "GOTOOLCHAIN=local", "VERIF_REPLAY_FILES=" + strings.Join(files, ":")}
 	ctxTimeout := "300s"
-	return runCmd(repo, env, "timeout", ctxTimeout, "go", "test", "-tags", tags, "-vet=off", "-count=1", "-run", "^TestVerifReplay$", "-v", "-overlay", ovFile, target)
+	args := []string{ctxTimeout, "go", "test", "-tags", tags, "-vet=off", "-count=1", "-run", run, "-v", "-overlay", ovFile}
+	if race {
+		args = append(args, "-race")
+	}
+	return runCmd(repo, env, "timeout", append(args, target)...)
 }
 
 // ReplayMain replays one recorded counterexample natively.
